@@ -15,9 +15,10 @@ ID = "C02"
 LEVEL = "exploration"
 DESIGN_REF = "DESIGN.md section 3, C02"
 RULE = ("each run = one generated program (module functions, instance/class/static methods, properties, overrides with super(), "
-        "nested closures, functools.wraps, all parameter kinds, generators, really-suspending coroutines) x one seeded schedule: a "
+        "nested closures, functools.wraps, all parameter kinds, generators incl. `yield from` delegation, really-suspending coroutines, async "
+        "generators; containers mutated in place after entry, one object shared by several calls) x one seeded schedule: a "
         "recursive action list that interleaves calls with start/next/send/throw/close/drop of up to ~10 live generator/coroutine "
-        "handles, executed under the real CallTracer via sys.setprofile; non-trivial = at least one admitted fixture call completed "
+        "handles (trampoline or simulated asyncio loop), with logger faults and transient function-lookup faults, executed under the real CallTracer via sys.setprofile; non-trivial = at least one admitted fixture call completed "
         "and was judged; distinct = distinct plan digests (program spec + schedule)")
 REAL = ["monkeytype.tracing (CallTracer, trace_calls, get_func)", "monkeytype.typing.get_type", "CPython sys.setprofile and real frames/opcodes of generated code"]
 STUBBED = ["trace logger (tee that records every CallTrace and the journal position)", "code filter (file-name predicate for the generated package)",
@@ -113,6 +114,7 @@ def swarm_knobs(rng):
     # drawn last so that the program pool (generated from the knobs above) stays the same
     kn["async_generators"] = kn["coroutines"] and rng.random() < 0.5
     kn["yield_from"] = kn["generators"] and rng.random() < 0.6
+    kn["cached_props"] = rng.random() < 0.4
     kn["mutate_p"] = rng.choice([0, 0, 0.12, 0.3])
     kn["shared_p"] = rng.choice([0, 0, 0.15, 0.4]) if kn["mutate_p"] else 0
     return kn
@@ -392,7 +394,7 @@ def execute(plan):
         "nontrivial": info["completed"] > 0,
         "evaluated": evaluated,
         "probes": probes,
-        "faults": {"log_raises": logger.fired} if logger.fired else {},
+        "faults": dict(({"log_raises": logger.fired} if logger.fired else {}), **({"lookup_raises": len(flaky)} if flaky else {})),
         "stats": {"completed_calls": info["completed"], "logged_traces": info["logged"], "matched": info["matched"],
                   "aio_loop_steps": sum(x["steps"] for x in mat_stats), "aio_ready_queue_permutations": sum(x["permutations"] for x in mat_stats)},
         "sim_days": sum(x["vtime"] for x in mat_stats) / 86400.0,
